@@ -1,7 +1,7 @@
 PROP = dict(
     id="C14",
     lean_modules=["TongoProofs.C14", "TongoProofs.C14Tlb"],
-    gen=["WalletConsts", "TlbTypes"],
+    gen=["WalletConsts", "TlbTypes", "WalletInts"],
     # the model IS the specification: bodies, envelope, digest, decoder outputs and verifier verdicts are bit-exact
     spec_ops=("m.body", "m.bodyx", "m.extn", "m.raw", "m.decode", "m.verify", "m.int", "m.intdec", "prim.sha256"),
     rule="every sending version (V3R1, V3R2, V4R1, V4R2, V5Beta, V5R1, HighLoadV2R2) x random Ed25519 keys x workchain / "
